@@ -65,6 +65,10 @@ public:
 	{
 		return in_memory_;
 	}
+	bool file_created()
+	{
+		return f_ != 0 || !in_memory_;
+	}
 
 	void set_limit(size_t mlimit)
 	{
